@@ -9,9 +9,13 @@ import tempfile
 import warnings
 from fractions import Fraction
 
-import numpy as np
+# single-threaded BLAS/OpenMP: the arrays are tiny and spinning worker threads only slow the check down
+for _v in ("OMP_NUM_THREADS", "OPENBLAS_NUM_THREADS", "MKL_NUM_THREADS"):
+    os.environ.setdefault(_v, "1")
 
-import builders_tracks as B
+import numpy as np  # noqa: E402
+
+import builders_tracks as B  # noqa: E402
 from common import VERIF, Rng, enc_rat, errname
 
 PROP = "C17"
@@ -58,7 +62,8 @@ RULE = (
     "photon counts; random programs of 1-8 split/merge/filter/interpolate/remove-in-rectangle operations; centroid and "
     "Gaussian refinement on synthetic spot images) + malformed stream (empty group, garbage cells, conflicting minimum "
     "durations, header-only file, out-of-range and negative nodes, same-frame merges, too small track width). "
-    "Non-trivial: round trip re-imported >= 1 track; program: at least one operation changed the group or was refused; "
+    "Sub-pixel accuracy (5e-3 pixel) is asserted only for isolated spots (one track in the image, window >= 4 sigma, no "
+    "background, noise-free expectation image). Non-trivial: round trip re-imported >= 1 track; program: at least one operation changed the group or was refused; "
     "refinement: a track with a gap or >= 2 tracks; %.6e: value with more than 7 significant digits."
 )
 TRUSTED = [
@@ -634,7 +639,7 @@ def oracle_prog(case, ia):
     px = prepare(case)["info"]["pixelsize"]
     for n, (op, err) in enumerate(zip(case["ops"], errs)):
         pre, post = states[n], states[n + 1]
-        where = f"op {n} {op}: "
+        where = {"s": "split", "m": "merge", "f": "filter", "i": "interpolate", "r": "remove-in-rect"}[op[0]] + f": op {n} {op} "
         if err != "-" and [cut(t, 0, None) for t in pre] != [cut(t, 0, None) for t in post]:
             return where + f"raised {err} but changed the group"
         if op[0] == "s":
@@ -755,7 +760,7 @@ def oracle_gauss(case, ia):
         while j < len(orig) and not (r["md"] == orig[j]["md"] and r["t"] and orig[j]["t"][0] <= min(r["t"]) and max(r["t"]) <= orig[j]["t"][-1]):
             j += 1
         if j == len(orig):
-            return f"span: Gaussian-refined track with lines {r['t'][:12]} lies outside the span of every remaining source track"
+            return f"span: Gaussian-refined track with lines {r['t'][:12]} and minimum duration {r['md']!r}: no remaining source track has that minimum duration and spans these lines"
         o = orig[j]
         if case["strategy"] != "skip":
             exp = list(range(o["t"][0], o["t"][-1] + 1)) if case["missing"] else o["t"]
@@ -1010,7 +1015,7 @@ def cases(tier, rng):
         yield {"stream": "small-scope", "kind": "fmt", "x": x}
 
     # ---- random: round trips
-    N = 260 if quick else 5000
+    N = 400 if quick else 4000
     r = rng.fork("c17-rt")
     for i in range(N):
         sub = r.fork(i)
@@ -1034,7 +1039,7 @@ def cases(tier, rng):
                "sw": sub.choice([None, None, 0, 1, 2, 5]), "co": sub.choice([True, True, False]), "subseed": i}
 
     # ---- random: editing programs
-    N = 500 if quick else 12000
+    N = 800 if quick else 10000
     r = rng.fork("c17-prog")
     for i in range(N):
         sub = r.fork(i)
@@ -1049,7 +1054,7 @@ def cases(tier, rng):
         yield gen_program(sub, k, tracks, i)
 
     # ---- random: hand-written files
-    N = 120 if quick else 3000
+    N = 120 if quick else 2000
     r = rng.fork("c17-read")
     for i in range(N):
         sub = r.fork(i)
@@ -1065,7 +1070,7 @@ def cases(tier, rng):
         yield {"stream": "random", "kind": "read", "k": kk, "rows": rows, "delim": sub.choice(DELIMS), "has_counts": sub.chance(0.5), "has_md": sub.chance(0.7), "subseed": i}
 
     # ---- random: %.6e
-    N = 300 if quick else 20000
+    N = 300 if quick else 10000
     r = rng.fork("c17-fmt")
     for i in range(N):
         sub = r.fork(i)
@@ -1081,12 +1086,12 @@ def cases(tier, rng):
         yield {"stream": "random", "kind": "fmt", "x": x, "subseed": i}
 
     # ---- random: refinement on synthetic spots
-    N = 40 if quick else 500
+    N = 60 if quick else 400
     r = rng.fork("c17-refine")
     for i in range(N):
         sub = r.fork(i)
         yield gen_refine_case(sub, i, "refine")
-    N = 25 if quick else 300
+    N = 40 if quick else 200
     r = rng.fork("c17-gauss")
     for i in range(N):
         sub = r.fork(i)
@@ -1275,6 +1280,8 @@ def extra_coverage(results):
         "roundtrip_calibrations": cals, "roundtrip_kymo_routes": routes, "roundtrip_group_sizes": sizes,
         "roundtrip_longest_track": nodes, "roundtrip_single_row_files": single_row, "roundtrip_minimum_durations": mdk,
         "program_ops": opsk, "dropped_for_margin": 0,
+        "margin_note": "no case is dropped: coordinates within 1e-6 of 0.5 are moved by 0.01 at generation, filter thresholds and "
+                       "rectangle bounds are drawn with their margin, merges that would cross two tracks (non-increasing lines) are re-drawn",
         "exhaustive": False,
         "exhaustive_note": "the small-scope stream enumerates its finite space completely; the random streams do not",
     }
